@@ -1,6 +1,6 @@
 (* C08 obligations.  Statements only; proofs are in SacnTrack/SacnProofs/SacnThms/ArtProofs. *)
 From OlaBase Require Import Bytes.
-From C08 Require Import Gen Model Spec SacnThms TextSpec ArtDistinct Final.
+From C08 Require Import Gen Model Spec SacnThms TextSpec TextCheck ArtDistinct Final.
 Local Open Scope N_scope.
 
 (* the property's literal numbers are the constants of the checked-out tree *)
@@ -151,6 +151,29 @@ Theorem c08_sacn_refines_text_partial :
     u_buf st' = text_out now (tstep c now (trun c [] h) p).
 Proof. exact c08_sacn_refines_text_partial_l. Qed.
 Print Assumptions c08_sacn_refines_text_partial.
+
+(* the instance checker the driver evaluates after every packet (TextCheck.v): verdict 0 is exactly
+   "registered buffer = text-level output"; verdict 1 (departure D1, known finding hand-down gap) means
+   the buffer differs from the text output and equals the text output without the shadowed sources;
+   verdict 2 (departure D2, stale after discard) means no merge happened on this packet and the buffer
+   is the unshadowed text output of the last merge, which is no longer the current one; and the
+   checker's text state is TextSpec.tstep whenever the sender is not shadowed and G_seq holds. *)
+Theorem c08_text_checker :
+  (forall merged frozen now T D buf,
+     verdict merged frozen now T D buf = 0 <-> buf = text_out now T) /\
+  (forall merged frozen now T D buf,
+     verdict merged frozen now T D buf = 1 ->
+     buf <> text_out now T /\ buf = text_out_unshadowed now T D) /\
+  (forall merged frozen now T D buf,
+     verdict merged frozen now T D buf = 2 ->
+     merged = false /\ buf <> text_out now T /\ buf = frozen /\ buf <> text_out_unshadowed now T D) /\
+  (forall c now keep rx T D p,
+     dlook D (p_cid p) = false ->
+     (forall r, tlook T (p_cid p) = Some r -> t_alive r = true ->
+                behind (t_seq r) (p_seq p) <= 19 -> now <= t_time r + 2500000) ->
+     fst (fst (xstep c now keep rx T D p)) = tstep c now T p).
+Proof. exact c08_text_checker_l. Qed.
+Print Assumptions c08_text_checker.
 
 (* hypotheses are satisfiable / the theorems are not vacuous *)
 Definition ex_pkt (cid prio seq : N) (term : bool) (slots : list N) : pkt :=
